@@ -29,7 +29,7 @@ PROPS["C10"] = {
          "thorough": {"checks": 20000, "shards": 14, "timeout": 1500}},
         {"pkg": "pkg/trie", "run": "^TestC10Exhaustive$",
          "quick": {"shards": 6, "timeout": 240, "env": {"VERIF_C10_DEPTH": 2, "VERIF_C10_ALPHA": 3}},
-         "thorough": {"shards": 16, "timeout": 1700, "env": {"VERIF_C10_DEPTH": 3, "VERIF_C10_ALPHA": 3}}},
+         "thorough": {"shards": 16, "timeout": 2400, "env": {"VERIF_C10_DEPTH": 3, "VERIF_C10_ALPHA": 3}}},
     ],
 }
 
@@ -57,7 +57,7 @@ PROPS["C11"] = {
         {"pkg": "pkg/trie", "run": "^TestC11Regression$", "all": {"shards": 1, "timeout": 300}},
         {"pkg": "state/statedb", "run": "^TestC11StateProofs$",
          "quick": {"checks": 500, "shards": 6, "timeout": 600},
-         "thorough": {"checks": 8000, "shards": 12, "timeout": 1500}},
+         "thorough": {"checks": 4000, "shards": 12, "timeout": 2400}},
     ],
 }
 
@@ -134,7 +134,7 @@ PROPS["C09"] = {
          "thorough": {"checks": 400000, "shards": 6, "timeout": 900}},
         {"pkg": "verifx/c08", "run": "^TestC09Blocks$",
          "quick": {"checks": 400, "shards": 8, "timeout": 700},
-         "thorough": {"checks": 8000, "shards": 16, "timeout": 1700}},
+         "thorough": {"checks": 8000, "shards": 16, "timeout": 2400}},
     ],
 }
 
@@ -154,7 +154,7 @@ PROPS["C01"] = {
     "units": [
         {"pkg": "verifx/c01", "run": "^TestC01Conservation$",
          "quick": {"checks": 300, "shards": 10, "timeout": 600},
-         "thorough": {"checks": 6000, "shards": 16, "timeout": 1700}},
+         "thorough": {"checks": 6000, "shards": 16, "timeout": 2400}},
     ],
 }
 
@@ -173,12 +173,12 @@ PROPS["C02"] = {
     "units": [
         {"pkg": "verifx/c02", "run": "^TestC02Determinism$",
          "quick": {"checks": 150, "shards": 10, "timeout": 300, "env": {"VERIF_C02_REPS": 3}},
-         "thorough": {"checks": 2500, "shards": 12, "timeout": 1700, "env": {"VERIF_C02_REPS": 8}}},
+         "thorough": {"checks": 1800, "shards": 12, "timeout": 2400, "env": {"VERIF_C02_REPS": 8}}},
         {"pkg": "verifx/c02", "run": "^TestC02Determinism$", "quick": {"skip": True},
          "race_scope": r"aergo/v2/(chain|state|contract|types|fee|pkg/trie)[/.(]",
          # verification-time statistics (a process-wide moving average and a hit counter used in a debug log line)
          "race_ignore": r"types\.\(\*MovingAverage\)|types\.\(\*AvgTime\)|chain\.\(\*SignVerifier\)\.RequestVerifyTxs\.func2",
-         "thorough": {"checks": 300, "shards": 4, "timeout": 1700, "race": True, "env": {"VERIF_C02_REPS": 4, "VERIF_GOMAXPROCS": 4}}},
+         "thorough": {"checks": 250, "shards": 4, "timeout": 2400, "race": True, "env": {"VERIF_C02_REPS": 4, "VERIF_GOMAXPROCS": 4}}},
     ],
 }
 
@@ -198,10 +198,10 @@ PROPS["C05"] = {
     "units": [
         {"pkg": "verifx/tree", "run": "^TestC05Arrivals$",
          "quick": {"checks": 120, "shards": 12, "timeout": 700},
-         "thorough": {"checks": 2500, "shards": 16, "timeout": 1700}},
+         "thorough": {"checks": 2500, "shards": 16, "timeout": 2400}},
         {"pkg": "verifx/tree", "run": "^TestC05Exhaustive$",
          "quick": {"shards": 4, "timeout": 700, "env": {"VERIF_C05_BLOCKS": 4}},
-         "thorough": {"shards": 16, "timeout": 1700, "env": {"VERIF_C05_BLOCKS": 6}}},
+         "thorough": {"shards": 16, "timeout": 2400, "env": {"VERIF_C05_BLOCKS": 6}}},
     ],
 }
 
@@ -218,14 +218,14 @@ PROPS["C07"] = {
     "units": [
         {"pkg": "verifx/tree", "run": "^TestC07ForkChoice$",
          "quick": {"checks": 120, "shards": 12, "timeout": 700},
-         "thorough": {"checks": 2500, "shards": 16, "timeout": 1700}},
+         "thorough": {"checks": 2500, "shards": 16, "timeout": 2400}},
         {"pkg": "verifx/tree", "run": "^TestC07KnownValidPrefix$", "all": {"shards": 1, "timeout": 300}},
         {"pkg": "verifx/tree", "run": "^TestC07RegressionParamsDuringReorg$", "all": {"shards": 1, "timeout": 300}},
         # the irreversibility clause with the real DPoS veto: the C08 simulation (several real nodes, a misbehaving
         # producer growing a private branch while the others stay silent), judged for fork choice
         {"pkg": "verifx/c08", "run": "^TestC07DPoSForkChoice$",
          "quick": {"checks": 40, "shards": 6, "timeout": 500},
-         "thorough": {"checks": 800, "shards": 12, "timeout": 1700}},
+         "thorough": {"checks": 800, "shards": 12, "timeout": 2400}},
     ],
 }
 
@@ -242,10 +242,10 @@ PROPS["C03"] = {
     "units": [
         {"pkg": "verifx/c03", "run": "^TestC03TxAtomicity$",
          "quick": {"checks": 80, "shards": 12, "timeout": 700},
-         "thorough": {"checks": 1500, "shards": 16, "timeout": 1700}},
+         "thorough": {"checks": 1500, "shards": 16, "timeout": 2400}},
         {"pkg": "verifx/tree", "run": "^TestC03InvalidBlocks$",
          "quick": {"checks": 100, "shards": 10, "timeout": 700},
-         "thorough": {"checks": 2000, "shards": 16, "timeout": 1700}},
+         "thorough": {"checks": 2000, "shards": 16, "timeout": 2400}},
         {"pkg": "verifx/tree", "run": "^TestC03RegressionFailedReorg$", "all": {"shards": 1, "timeout": 300}},
     ],
 }
@@ -263,7 +263,7 @@ PROPS["C04"] = {
     "units": [
         {"pkg": "verifx/tree", "run": "^TestC04ForgedBlocks$",
          "quick": {"checks": 100, "shards": 10, "timeout": 700},
-         "thorough": {"checks": 2000, "shards": 16, "timeout": 1700}},
+         "thorough": {"checks": 2000, "shards": 16, "timeout": 2400}},
         {"pkg": "verifx/tree", "run": "^TestC04RegressionStaleVerify$", "all": {"shards": 1, "timeout": 300}},
     ],
 }
@@ -282,7 +282,7 @@ PROPS["C15"] = {
     "units": [
         {"pkg": "verifx/c15", "run": "^TestC15Governance$",
          "quick": {"checks": 150, "shards": 12, "timeout": 700},
-         "thorough": {"checks": 4000, "shards": 16, "timeout": 1700}},
+         "thorough": {"checks": 4000, "shards": 16, "timeout": 2400}},
         {"pkg": "verifx/c15", "run": "^TestC15KnownPreV2Vote$", "all": {"shards": 1, "timeout": 300}},
     ],
 }
@@ -300,7 +300,7 @@ PROPS["C14"] = {
     "units": [
         {"pkg": "verifx/c14", "run": "^TestC14Admission$",
          "quick": {"checks": 250, "shards": 12, "timeout": 700},
-         "thorough": {"checks": 6000, "shards": 16, "timeout": 1700}},
+         "thorough": {"checks": 6000, "shards": 16, "timeout": 2400}},
         {"pkg": "verifx/c14", "run": "^TestC14KnownOddCandidate$", "all": {"shards": 1, "timeout": 300}},
     ],
 }
@@ -318,10 +318,10 @@ PROPS["C13"] = {
     "units": [
         {"pkg": "verifx/c13", "run": "^TestC13Pool$",
          "quick": {"checks": 120, "shards": 12, "timeout": 700},
-         "thorough": {"checks": 2500, "shards": 16, "timeout": 1700}},
+         "thorough": {"checks": 2500, "shards": 16, "timeout": 2400}},
         {"pkg": "verifx/c13", "run": "^TestC13Concurrent$", "race_scope": r"aergo/v2/mempool\.",
          "quick": {"checks": 60, "shards": 4, "timeout": 700},
-         "thorough": {"checks": 600, "shards": 8, "timeout": 1700, "race": True}},
+         "thorough": {"checks": 600, "shards": 8, "timeout": 2400, "race": True}},
     ],
 }
 
@@ -338,10 +338,10 @@ PROPS["C16"] = {
     "units": [
         {"pkg": "consensus/impl/raftv2", "run": "^TestC16Wal$",
          "quick": {"checks": 100, "shards": 10, "timeout": 700},
-         "thorough": {"checks": 2000, "shards": 14, "timeout": 1700}},
+         "thorough": {"checks": 2000, "shards": 14, "timeout": 2400}},
         {"pkg": "consensus/impl/raftv2", "run": "^TestC16Membership$",
          "quick": {"checks": 1500, "shards": 2, "timeout": 600},
-         "thorough": {"checks": 40000, "shards": 2, "timeout": 1700}},
+         "thorough": {"checks": 40000, "shards": 2, "timeout": 2400}},
     ],
 }
 
@@ -358,7 +358,7 @@ PROPS["C08"] = {
     "units": [
         {"pkg": "verifx/c08", "run": "^TestC08Finality$",
          "quick": {"checks": 60, "shards": 12, "timeout": 500},
-         "thorough": {"checks": 1200, "shards": 16, "timeout": 1700}},
+         "thorough": {"checks": 1200, "shards": 16, "timeout": 2400}},
         {"pkg": "verifx/c08", "run": "^TestC08StaleProposalsAfterReorg$", "all": {"shards": 1, "timeout": 300}},
     ],
 }
@@ -378,7 +378,7 @@ PROPS["C18"] = {
         {"pkg": "p2p/v030", "links": {"../test": "p2p/test"}, "run": "^TestC18Framing$", "quick": {"checks": 1500, "shards": 3, "timeout": 600}, "thorough": {"checks": 40000, "shards": 6, "timeout": 1500}},
         {"pkg": "p2p/v030", "links": {"../test": "p2p/test"}, "run": "^TestC18ReadBounded$", "quick": {"checks": 3000, "shards": 2, "timeout": 600}, "thorough": {"checks": 60000, "shards": 4, "timeout": 1500}},
         {"pkg": "p2p/v200", "links": {"../test": "p2p/test"}, "run": "^TestC18Handshake$", "quick": {"checks": 1500, "shards": 3, "timeout": 600}, "thorough": {"checks": 40000, "shards": 6, "timeout": 1500}},
-        {"pkg": "verifx/tree", "run": "^TestC18BlockIdentity$", "quick": {"checks": 120, "shards": 6, "timeout": 700}, "thorough": {"checks": 3000, "shards": 12, "timeout": 1700}},
+        {"pkg": "verifx/tree", "run": "^TestC18BlockIdentity$", "quick": {"checks": 120, "shards": 6, "timeout": 700}, "thorough": {"checks": 3000, "shards": 12, "timeout": 2400}},
     ],
 }
 
@@ -395,7 +395,7 @@ PROPS["C06"] = {
     "units": [
         {"pkg": "verifx/tree", "run": "^TestC06CrashPoints$",
          "quick": {"checks": 40, "shards": 12, "timeout": 500},
-         "thorough": {"checks": 500, "shards": 16, "timeout": 1700}},
+         "thorough": {"checks": 500, "shards": 16, "timeout": 2400}},
         {"pkg": "verifx/tree", "run": "^TestC06KnownUnadoptedBranch$", "all": {"shards": 1, "timeout": 300}},
     ],
 }
@@ -412,10 +412,10 @@ PROPS["C17"] = {
     "units": [
         {"pkg": "verifx/tree", "run": "^TestC17Anchors$",
          "quick": {"checks": 25, "shards": 8, "timeout": 600, "env": {"VERIF_C17_LONGPCT": 16}},
-         "thorough": {"checks": 300, "shards": 12, "timeout": 1700, "env": {"VERIF_C17_LONGPCT": 20}}},
+         "thorough": {"checks": 300, "shards": 12, "timeout": 2400, "env": {"VERIF_C17_LONGPCT": 20}}},
         {"pkg": "syncer", "run": "^TestC17Sync$",
          "quick": {"checks": 60, "shards": 12, "timeout": 600},
-         "thorough": {"checks": 800, "shards": 16, "timeout": 1700}},
+         "thorough": {"checks": 800, "shards": 16, "timeout": 2400}},
     ],
 }
 
@@ -434,7 +434,7 @@ PROPS["C20"] = {
     "units": [
         {"pkg": "contract", "run": "^TestC20ReadOnlyGuards$",
          "quick": {"checks": 1500, "shards": 6, "timeout": 700},
-         "thorough": {"checks": 30000, "shards": 12, "timeout": 1700}},
+         "thorough": {"checks": 30000, "shards": 12, "timeout": 2400}},
     ],
 }
 
